@@ -231,7 +231,21 @@ func (w *Workspace) Prepare(c *Case) {
 	if c.RawParam != nil {
 		c.Param = *c.RawParam
 	}
-	c.Request = descgen.MarshalRequest(descgen.Request(c.File, c.Param))
+	req := descgen.Request(c.File, c.Param)
+	if c.File.Dep != nil && hasTag(c.Tags, "generate-dep-too") {
+		// protoc invoked with both files at once: the dependency first, as protoc orders them
+		req.FileToGenerate = []string{c.File.Dep.Name, c.File.Name}
+	}
+	c.Request = descgen.MarshalRequest(req)
+}
+
+func hasTag(tags []string, t string) bool {
+	for _, x := range tags {
+		if x == t {
+			return true
+		}
+	}
+	return false
 }
 
 // PluginTimeout is the watchdog for one plugin run (normal run time is ~0.2 s,
